@@ -474,7 +474,8 @@ def _whole_name_pattern(text):
                 if len(sub) == 1 and sub[0][0] is sc.IN:
                     import re
                     cls = re.compile(text[:0] + '[' + ''.join(_cls_text(x) for x in sub[0][1]) + ']')
-                    if all(cls.match(ch) for ch in 'azAZ09_'):
+                    # letters (any alphabet), digits, underscore - and, in front of the name, the dot of an attribute access or of a number (1.e5)
+                    if all(cls.match(ch) for ch in 'azAZ09_\u00e9\u03b8' + ('.' if direction == -1 else '')):
                         return True
         return False
 
@@ -492,30 +493,34 @@ def _whole_name_pattern(text):
 
 @rule('C12.k', min_instances=1)
 def variables_are_replaced_as_whole_names(ctx):
-    """simplify / solve rename the caller's variables textually (replace_variables) before anything is parsed, for ANY variable naming: a name must only be replaced where it stands as a whole identifier - a plain str.replace also rewrites the `e` of the coefficient 1e+20 when a variable is called e (1e+20 became 1_4+20, read as 14+20) and the x of max(...). The substitution loop of replace_variables uses a regular expression that refuses a letter, digit or underscore on either side of the name (decided on the parsed pattern)"""
+    """simplify / solve rename the caller's variables textually (replace_variables) before anything is parsed, for ANY variable naming: a name must only be replaced where it stands as a whole identifier - a plain str.replace also rewrites the `e` of the coefficient 1e+20 when a variable is called e (1e+20 became 1_4+20, read as 14+20) and the x of max(...). replace_variables substitutes with a regular expression that refuses a letter, digit or underscore on either side of the name (decided on the parsed pattern) - name by name in a loop, or all names at once"""
     f = ctx.func('mystic.symbolic:replace_variables')
-    loops = [n for n in walk_no_nested(f.node) if isinstance(n, ast.For) and calls_where(n, lambda c: isinstance(c.func, ast.Attribute) and c.func.attr in ('replace', 'sub'), include_lambda=False)
-             and 'variables' in ' '.join(unparse(s) for s in n.body)]
-    ctx.need(loops, 'replace_variables: the substitution loop over the variable names is not found')
-    lp = [l for l in loops if 'markers[' not in ' '.join(unparse(s) for s in l.body)] or loops
-    lp = lp[-1]
     names = {}
     for st in ctx.model.modules['mystic.symbolic'].tree.body:
         if isinstance(st, ast.Assign) and len(st.targets) == 1 and isinstance(st.targets[0], ast.Name) and isinstance(st.value, ast.Constant) and isinstance(st.value.value, str):
             names[st.targets[0].id] = st.value
-    for st in lp.body:
-        if isinstance(st, ast.Assign) and len(st.targets) == 1 and isinstance(st.targets[0], ast.Name):
+    for st in stmts_of(f.node):
+        if isinstance(st, ast.Assign) and len(st.targets) == 1 and isinstance(st.targets[0], ast.Name) and st.targets[0].id not in names:
             names[st.targets[0].id] = st.value
-    plain = calls_where(lp, lambda c: isinstance(c.func, ast.Attribute) and c.func.attr == 'replace' and c.args and 'variables[' in unparse(c.args[0]), include_lambda=False)
-    subs = calls_where(lp, lambda c: isinstance(c.func, ast.Attribute) and c.func.attr == 'sub' and len(c.args) >= 2, include_lambda=False)
+    plain = [c for c in ast.walk(f.node) if isinstance(c, ast.Call) and isinstance(c.func, ast.Attribute) and c.func.attr == 'replace' and c.args and 'variables[' in unparse(c.args[0])]
     if plain:
         ctx.bad('replace_variables#whole-names', 'replace_variables substitutes each variable name with str.replace, i.e. wherever the characters occur: a variable called e is also replaced inside the coefficient 1e+20 '
                 '(-> 1_4+20 = 34) and x inside max(...), so simplify / solve return a different system for some variable namings', f, enclosing_stmt(plain[0]))
         return
-    ctx.need(subs, 'replace_variables: neither str.replace nor re.sub in the substitution loop')
+    # the substitution(s) over the variable names: re.sub whose pattern is built (not a constant: that is the marker restoration of C12.j)
+    subs = [c for c in ast.walk(f.node) if isinstance(c, ast.Call) and isinstance(c.func, ast.Attribute) and c.func.attr == 'sub' and len(c.args) >= 2 and
+            not isinstance(c.args[0], ast.Constant)]
+    ctx.need(subs, 'replace_variables: neither str.replace nor re.sub over the variable names')
     text = _fold_pattern(subs[0].args[0], names)
     ctx.need(text is not None, 'replace_variables: cannot fold the pattern %s to text' % unparse(subs[0].args[0])[:80])
     ok_ = _whole_name_pattern(text)
     ctx.need(ok_ is not None, 'replace_variables: pattern %r cannot be parsed' % text)
     ctx.check(ok_, 'replace_variables#whole-names', 'names are matched as whole identifiers (pattern %s)' % text,
-              'replace_variables matches the variable names with the pattern %r, which accepts a match inside a longer identifier or a number (1e+20 with a variable called e)' % text, f, enclosing_stmt(subs[0]))
+              'replace_variables matches the variable names with the pattern %r, which accepts a match inside a longer identifier (also a non-ascii one), after the dot of an attribute access, or inside a number '
+              '(1e+20 with a variable called e)' % text, f, enclosing_stmt(subs[0]))
+    lp = parent(subs[0])
+    while lp is not None and not isinstance(lp, (ast.For, ast.While, ast.FunctionDef)):
+        lp = parent(lp)
+    ctx.check(isinstance(lp, ast.FunctionDef), 'replace_variables#one-pass', 'all names are substituted in one pass',
+              'replace_variables substitutes the names one after the other: a marker written for one name is scanned again for the next, so with the names [x1, x0] and the marker x the text `x1 + x0` '
+              'becomes `x1 + x1`', f, lp if lp is not None else f.node)
